@@ -344,7 +344,7 @@ PROPS = {
         "assumptions": [],
     },
     "C17": {
-        "src": "c17", "engine": "rc", "level": "fault_enumeration",
+        "src": "c17", "engine": "rc", "level": "fault_enumeration", "needs_cli": True,
         "technique": "fault enumeration over generated inputs: every prefix and every single-field header/table rewrite of compiled images of rapidcheck-generated rule sets, loaded in forked children",
         "level_text": ("For each generated rule set the compiled image is cut at EVERY byte position (images <= 64 KiB; above "
                        "that all section and relocation-entry boundaries +-1/2 plus 2000 sampled points) and every single "
